@@ -95,7 +95,7 @@ func main() {
 			"the same http formats read again and again (passes=0 with a limit: files without entries, last entry cut after its size line), bodies around and above the 1 MiB chunk of readSized, " +
 			"the generic JSON provider (plugin type json) over MultiPassReader (sources without ammo, truncated last ammo, passes 0..3), a metamorphic prefix run of every format (good alone vs good++junk), " +
 			"placeholders into typed fields; jsonline files of a safe JSON subset (object streams, arrays, refused files, truncated and garbled values) predicted entry by entry under every passes x limit x preload combination, " +
-			"the continue_on_error / headers / uris options of the http provider, an injected I/O fault (the read reaching a given byte, the n-th seek to the start) under every format; thorough adds exhaustive enumerations (every file of <= 5 tokens per http format, every name(arg,arg) / header string of <= 6 tokens, every request list of <= 3 items, index x source x length x calls, weight lists of <= 3, JSON sources of <= 4 tokens); " +
+			"the continue_on_error / headers / uris / chosen_cases options of the http provider (a filter that matches nothing, with and without limits), the `type` value of every plugin of a pool config and every string option of a scenario description set to empty / blank / odd / huge values or left out (YAML and HCL), an injected I/O fault (the read reaching a given byte, the n-th seek to the start) under every format; thorough adds exhaustive enumerations (every file of <= 5 tokens per http format, every name(arg,arg) / header string of <= 6 tokens, every request list of <= 3 items, index x source x length x calls, weight lists of <= 3, JSON sources of <= 4 tokens); " +
 			"a case is non-trivial when it reaches the modelled decoder with a non-empty input",
 	})
 }
@@ -246,6 +246,10 @@ func runOnce(input string) string {
 		return runScnNull(kv)
 	case "cli":
 		return runCli(kv)
+	case "popt":
+		return runPopt(kv)
+	case "sopt":
+		return runSopt(kv)
 	}
 	return "BADINPUT"
 }
@@ -408,6 +412,15 @@ func class(input, obs string) string {
 		if kv["passes"] == "0" && kv["fmt"] != "grpcjson" {
 			k += ":multipass"
 		}
+		if kv["cc"] != "" && kv["fmt"] != "grpcjson" {
+			k += ":cc"
+		}
+	}
+	if k == "popt" {
+		k += ":" + kv["where"]
+	}
+	if k == "sopt" {
+		k += ":" + kv["kind"] + ":" + kv["fmt"] + ":" + kv["slot"]
 	}
 	if k == "genjson" {
 		if kv["hex"] == "" && kv["passes"] != "0" {
